@@ -9,14 +9,16 @@ import (
 func TestProp(t *testing.T) {
 	r := evid.New(t, "C16", evid.Config{
 		Level: "exploration",
-		Rule:  "generated pprof profiles (1-6 per case, shared sample types and function table) through the exported profile parsers, their tree rows merged by service.Tree in a generated order; non-trivial: a recursive frame or a root frame shared by >=2 samples of one profile, and >=2 profiles sharing a root frame",
+		Rule:  "generated pprof profiles (1-6 per case, shared sample types and function table) through the exported profile parsers, their tree rows merged by service.Tree in a generated order; non-trivial: a recursive frame or a root frame shared by >=2 samples of one profile, and >=2 profiles sharing a root frame; diff: both sides have nodes, the union is >=3 deep and one side owns a chain of >=3 consecutive frames the other lacks",
 		Assumptions: []string{
 			"one value per sample type in every sample, distinct type:unit names, values >= 0 (pprof CheckValid; reader selects values by name)",
 			"a service.Tree holds one sample type (getTree: SampleTypes = [type:unit]); rows reach MergeTrie either pre-summed per (parent, function, node) and ordered by parent id (the generated SQL) or profile by profile",
 			"node ids (55-bit city hash of parent id and function id) do not collide within a case",
+			"diff: the type id travels in the query text, so the diffed sample type and the period type are plain words; the fake database tells the two merge statements apart by the selector value",
 			"the frame of a location is the function of its first line, n/a without lines (qryn's convention; only compared when no location has inlined lines)",
 		},
 	})
 	addProf(r)
+	addDiff(r)
 	r.Main()
 }
